@@ -270,7 +270,7 @@ func RunC07(p *harness.Program) Result {
 				return "run failed"
 			}
 			return compareTwin(&a2, &b2, tIdx, len(p.Items))
-		}, 3)
+		}, 8)
 		if !stable {
 			c["unstable-diff"]++
 			return Result{Counters: c}
